@@ -59,6 +59,24 @@ def _h_parts_all_prefixes(q: int) -> bool:
     return True
 
 
+GREEK = ("alpha", "beta", "gamma", "delta", "epsilon", "zeta", "eta", "theta", "iota", "kappa", "lambda", "mu", "nu", "xi", "omicron",
+         "pi", "rho", "sigma", "tau", "upsilon", "phi", "chi", "psi", "omega")
+
+
+def _h_parts_greek_radical(q: int) -> bool:
+    """
+    pre: -99 <= q <= 99
+    post: _
+    """
+    # a greek prefix followed by the radical dot (e.g. 'alpha-.NO2'): both are prefixes, the core and the charge are what is left
+    chg = "" if q == 0 else (("+" if q > 0 else "-") + (str(abs(q)) if abs(q) != 1 else ""))
+    for g in GREEK:
+        parts = _formula_to_parts(g + "-." + "NO2" + chg + "(g)", PREFIXES, SUFFIXES)
+        if not (parts[0] == "NO2" and parts[1] == (chg if chg else None) and tuple(parts[2]) == (g + "-", ".") and tuple(parts[3]) == ("(g)",)):
+            return False
+    return True
+
+
 def _h_leading_integer(m: int) -> bool:
     """
     pre: 0 <= m <= 999
